@@ -24,7 +24,7 @@ Proof. intros I HU Hd. apply max_time_bound; auto. intros e He. apply HU. eapply
 Theorem ptbound_step B s o : 0 <= B -> seed_of o <= B -> psinv s -> pwf_step s o -> ptbound B s -> ptbound B (fst (step s o)).
 Proof.
   intros HB HS SI W [TU TL]. pose proof (psinv_step s o SI W) as SI'. destruct SI as [UO IL].
-  destruct o as [id key sf deny t0|r payload pc h|r src size|r key|r mh|r io|r payload pc h|r|osrc okeep oid okey osf odeny]; cbn [step].
+  destruct o as [id key sf deny t0|r payload pc h|r src size|r key|r mh|r io|r payload pc h|r|osrc okeep ohh oid okey osf odeny]; cbn [step].
   - split; [exact TU|]. cbn [fst s_logs s_univ]. intros r l H.
     destruct (Nat.lt_ge_cases r (length (s_logs s))) as [Hl|Hl].
     + rewrite nth_error_app1 in H by assumption. eauto.
